@@ -252,3 +252,44 @@ def v_ptm5(c):
             c.ensure_true("single_factor_per_spectrum", max(ratios) - min(ratios) < 1e-6 * max(1.0, max(ratios)), f"{min(ratios)}..{max(ratios)}")
             if ongrid:
                 c.ensure_eq("factor_one_on_grid_cutoff", ratios[0], 1.0)
+
+
+# ---------------------------------------------------------------------------------------
+# _interp_freq: proved for any number of frequencies (symbolic extent)
+
+
+@contract(SA + "_interp_freq", props=["C09"], scenarios=[{"dims": ("pos", "freq", "dir")}, {"dims": ("freq", "dir")}])
+def v_interp_freq(c, dims):
+    """value inserted at an off-grid cutoff = linear interpolant between the two bracketing
+    frequency bins, with the cutoff as the (single) frequency coordinate"""
+    m = c.m
+    da = c.spectrum(dims, min_nf=2, min_nd=1)
+    V = View(da)
+    n = V.NF
+    fint = c.real("fint", 0, 10)
+    if m.symbolic:
+        c.assume(m.and_(fint > V.f(0), fint < V.f(n - 1)))
+        out = c.call(da.spec, fint)
+        k = A.searchsorted(da.coords["freq"].data, fint, "left")
+    else:
+        import numpy as np
+
+        f = da["freq"].values
+        if len(f) < 2:
+            return
+        lo = c.rng.randrange(0, len(f) - 1)
+        fint = float(f[lo] + c.rng.uniform(0.1, 0.9) * (f[lo + 1] - f[lo]))
+        c.env["fint"] = fint
+        out = c.call(da.spec, fint)
+        k = int(np.searchsorted(f, fint))
+    W = View(out)
+    pos = c.position(V)
+    j = c.index("j", V.ND)
+    c.ensure_eq("cutoff_is_the_frequency_coordinate", W.f(0), fint)
+    a, b = V.f(k - 1), V.f(k)
+    want = (V.E(pos, k - 1, j) * (b - fint) + V.E(pos, k, j) * (fint - a)) / (b - a)
+    c.ensure_eq("linear_interpolant_of_the_bracketing_bins", W.E(pos, 0, j), want)
+    if m.symbolic:
+        c.ensure("one_frequency_in_the_result", A.ext(out.extent("freq")) == 1)
+    else:
+        c.ensure("one_frequency_in_the_result", out.sizes["freq"] == 1)
